@@ -116,6 +116,8 @@ func (c *Context) Copy() *Context {
 	ctx.Resp = &ctx.writer
 	ctx.handlers = nil
 	ctx.index = abortIndex
+	// Notice: must copy the errors. the slice of the pooled context is emptied and used again by the following requests
+	ctx.Errors = append([]error(nil), c.Errors...)
 	return &ctx
 }
 
